@@ -177,10 +177,10 @@ int main( int argc, char** argv )
 {
     vh::take_property( argc, argv, "C22" );
     cds::Initialize();
-    family<SpinKind>( true, false, 6, 12, 3, 4 );
-    family<ReentrantKind>( true, true, 5, 10, 3, 4 );
-    family<LockArrayKind>( true, false, 5, 8, 3, 4 );
-    family<InjectingKind>( false, false, 5, 8, 3, 4 );
+    family<SpinKind>( true, false, 6, 9, 3, 4 );
+    family<ReentrantKind>( true, true, 5, 8, 3, 4 );
+    family<LockArrayKind>( true, false, 5, 7, 3, 4 );
+    family<InjectingKind>( false, false, 5, 7, 3, 4 );
     family<PoolKind<cds::sync::spin, 1>>( false, false, 3, 4, 2, 3 );
     family<PoolKind<cds_verif::mutex, 2>>( false, false, 3, 4, 2, 3 );
     Options o; o.property = vh::property().c_str();
